@@ -29,7 +29,8 @@ let () =
     while true do
       let line = input_line stdin in
       match String.split_on_char ' ' (String.trim line) with
-      | ["T"; tid; pid; loom] -> threads := { ti_tid = zi tid; ti_pid = zi pid; ti_loom = ni loom } :: !threads
+      | ["T"; tid; pid; loom] -> threads := { ti_tid = zi tid; ti_pid = zi pid; ti_loom = ni loom; ti_appid = zi "1"; ti_rank = zi "-1" } :: !threads
+      | ["T"; tid; pid; loom; app; rank] -> threads := { ti_tid = zi tid; ti_pid = zi pid; ti_loom = ni loom; ti_appid = zi app; ti_rank = zi rank } :: !threads
       | ["C"; virt; loom; index] -> cpus := { ci_virtual = bo virt; ci_loom = ni loom; ci_index = zi index } :: !cpus
       | ["S"; m; i; stack; dup; tht; cput; ty; fl; ini; def] ->
         chans := { cs_model = zi m; cs_index = zi i; cs_stack = bo stack; cs_dup = bo dup; cs_thtrack = zi tht;
@@ -37,7 +38,9 @@ let () =
       | "L" :: l :: rest -> lint := bo l; lintchans := List.map ni rest
       | "M" :: ids -> enabled := List.map zi ids; useraw := true
       | ["R"; tm; who; m; c; v; payload] ->
-        rawevs := (zi tm, ni who, zi m, zi c, zi v, bytes_of_hex payload) :: !rawevs
+        rawevs := (zi tm, ni who, zi m, zi c, zi v, bytes_of_hex payload, false, zi "0") :: !rawevs
+      | ["R"; tm; who; m; c; v; payload; jumbo; aux] ->
+        rawevs := (zi tm, ni who, zi m, zi c, zi v, bytes_of_hex payload, bo jumbo, zi aux) :: !rawevs
       | "E" :: tm :: who :: kind :: args ->
         let ev = match kind, args with
           | "X", [i] -> EvOvni (Execute (zi i))
@@ -59,7 +62,7 @@ let () =
         let sx = { s_threads = List.rev !threads; s_cpus = List.rev !cpus; s_chans = cs; s_lint = !lint } in
         let lc = if !useraw then lint_chans cs else !lintchans in
         let es = if !useraw then
-            List.rev_map (fun (tm, who, m, c, v, p) -> ((tm, who), decode !enabled cs m c v p)) !rawevs
+            List.rev_map (fun (tm, who, m, c, v, p, j, aux) -> ((tm, who), decode_full !enabled cs m c v p j aux)) !rawevs
           else List.rev !evs in
         (match run sx lc es with
          | Err e -> Printf.printf "err %d\n" (int_of_nat e)
